@@ -159,18 +159,26 @@ impl Output {
                 rayon::spawn(move || {
                     verbose_timing_phase!("Create output file");
 
+                    #[cfg(wild_verif)]
+                    simrt::event("fw_creator_start", 0, 0, 0);
                     if output_config.file_write_mode == FileWriteMode::UnlinkAndReplace {
                         // Rename the old output file so that we can create a new file in its place.
                         // Reusing the existing file would also be an option, but that wouldn't
                         // error if the file is currently being executed.
                         let renamed_old_file = path.with_extension("delete");
+                        #[cfg(wild_verif)]
+                        simrt::sched_point("fw_rename");
                         let rename_status = std::fs::rename(&path, &renamed_old_file);
+                        #[cfg(wild_verif)]
+                        simrt::event("fw_renamed", u64::from(rename_status.is_ok()), 0, 0);
 
                         // If there was an old output file that we renamed, then delete it. We do so
                         // from a separate task so that it can run in the background while other
                         // threads continue working. Deleting can take a while for large files.
                         if rename_status.is_ok() {
                             rayon::spawn(move || {
+                                #[cfg(wild_verif)]
+                                simrt::event("fw_delete_old", 0, 0, 0);
                                 let _ = std::fs::remove_file(renamed_old_file);
                                 // Note, we don't currently signal when we've finished deleting the
                                 // file. Based on experiments run on Linux 6.9.3, if we exit while
@@ -182,11 +190,19 @@ impl Output {
                     }
 
                     // Create the output file.
+                    #[cfg(wild_verif)]
+                    simrt::sched_point("fw_create");
                     let sized_output = SizedOutput::new(path, output_config, size);
+                    #[cfg(wild_verif)]
+                    simrt::event("fw_created", u64::from(sized_output.is_ok()), 0, 0);
 
                     // Pass it to the main thread, so that it can start writing it once layout
                     // finishes.
+                    #[cfg(wild_verif)]
+                    simrt::sched_point("fw_send");
                     let _ = sender.send(sized_output);
+                    #[cfg(wild_verif)]
+                    simrt::notify("sized_output");
                 });
             }
             FileCreator::Regular { file_size } => *file_size = Some(size),
@@ -216,8 +232,14 @@ impl Output {
                 self.create_file_non_lazily(file_size)?
             }
         };
+        #[cfg(wild_verif)]
+        simrt::phase("write_start");
         write_fn(&mut sized_output, layout)?;
+        #[cfg(wild_verif)]
+        simrt::phase("write_body_done");
         sized_output.flush()?;
+        #[cfg(wild_verif)]
+        simrt::phase("write_flushed");
         sized_output.trace.close()?;
 
         // While we have the output file mmapped with write permission, the file will be locked and
@@ -226,6 +248,8 @@ impl Output {
             timing_phase!("Unmap output file");
             drop(sized_output);
         }
+        #[cfg(wild_verif)]
+        simrt::phase("write_unmapped");
 
         Ok(())
     }
@@ -257,6 +281,8 @@ fn delete_old_output(path: &Path) {
 
 fn wait_for_sized_output(sized_output_recv: &Receiver<Result<SizedOutput>>) -> Result<SizedOutput> {
     timing_phase!("Wait for output file creation");
+    #[cfg(wild_verif)]
+    simrt::wait_event("sized_output");
     sized_output_recv.recv()?
 }
 
